@@ -22,6 +22,7 @@ Concurrent use from several threads is NOT covered (no symbolic engine for Pytho
 from __future__ import annotations
 
 import itertools
+from fractions import Fraction
 
 import numpy as np
 import z3
@@ -69,6 +70,10 @@ def jobs(tier, seed):
         out.append(('setters-%s' % m, dict(kind='setters', m1=m, m2='')))
     for m in ('central', 'forward', 'complex'):
         out.append(('reuse-%s' % m, dict(kind='reuse', m1=m, m2='')))
+    for cls in ('Jacobian', 'Gradient', 'Hessian', 'Hessdiag', 'Limit'):
+        for m in (('central', 'forward') if cls != 'Limit' else ('above', 'below')):
+            out.append(('reuse-%s-%s' % (cls, m), dict(kind='reuse_cls', m1=m, m2=cls)))
+    out.append(('genstate-cstep', dict(kind='cgen', m1='', m2='')))
     return out
 
 
@@ -79,6 +84,10 @@ def run_job(job, kind, m1, m2):
         return genstate(job, m1, m2)
     if kind == 'setters':
         return setters(job, m1)
+    if kind == 'reuse_cls':
+        return reuse_cls(job, m2, m1)
+    if kind == 'cgen':
+        return cgen(job)
     return reuse(job, m1)
 
 
@@ -338,6 +347,119 @@ def reuse(job, method):
                               dict(key='C09:reuse:%s:result-depends-on-history' % method, kind='reuse', method=method, what=what))
 
 
+def _cls_setup(cls, method, nd, lim):
+    """-> (constructor(fun) -> object, fun with symbolic coefficients, points x1, x2, names)"""
+    if cls == 'Limit':
+        p = [sn.real_var('p%d' % j) for j in range(3)]
+
+        def make_f(z0):
+            def f(z, *a, **k):
+                zz = np.atleast_1d(np.asarray(z, dtype=float))
+                out = np.empty(zz.shape, dtype=object)
+                for i, v in enumerate(zz):
+                    w = Fraction(float(v)) - Fraction(z0)
+                    out[i] = float('nan') if w == 0 else (p[2] * sn.const(w) + p[1]) * sn.const(w) + p[0]
+                return out.view(sn.SymArr) if np.ndim(z) else out[0]
+            return f
+        mk = lambda f: lim.Limit(f, step=0.25, method=method, order=2, num_steps=5, step_ratio=4.0, full_output=True)  # noqa
+        return mk, make_f, 0.5, 2.0, ['p0', 'p1', 'p2']
+    n = 2
+    q = [[sn.real_var('q%d%d' % (min(i, j), max(i, j))) for j in range(n)] for i in range(n)]
+    c = [sn.real_var('c%d' % i) for i in range(n)]
+    names = ['c0', 'c1', 'q00', 'q01', 'q11']
+
+    def f(x, *a, **k):
+        acc = 0.25
+        for i in range(n):
+            acc = acc + c[i] * x[i]
+            for j in range(n):
+                acc = acc + x[i] * x[j] * q[i][j] * 0.5
+        if cls == 'Jacobian':
+            out = np.empty(2, dtype=object)
+            out[0], out[1] = acc, acc * 2.0 + x[0]
+            return out.view(sn.SymArr)
+        return acc
+    mk = lambda fun: getattr(nd, cls)(fun, step=nd.MinStepGenerator(base_step=0.25, step_ratio=2.0, num_steps=3, step_nom=1.0),  # noqa
+                                      method=method, full_output=True)
+    return mk, (lambda _z0: f), np.array([0.5, -0.75]), np.array([1.25, 2.0]), names
+
+
+def reuse_cls(job, cls, method):
+    from fractions import Fraction  # noqa
+    mods = cm.nd_mods()
+    nd, lim = mods['nd'], mods['lim']
+    mk, make_f, x1, x2, names = _cls_setup(cls, method, nd, lim)
+    box = [z3.And(z3.Real(nm) >= -1, z3.Real(nm) <= 1) for nm in names]
+
+    def harness():
+        with tr.traced(), sn.abstract_division(products=True), cm.quiet():
+            if cls == 'Limit':
+                # one object per expansion point family is not needed: the same Limit object is called at two points
+                f1 = make_f(x1)
+                obj = mk(f1)
+                first = obj(x1)
+                obj.fun = make_f(x2)
+                obj(x2)
+                obj.fun = f1
+                again = obj(x1)
+                fresh = mk(f1)(x1)
+            else:
+                f = make_f(None)
+                obj = mk(f)
+                first = obj(x1)
+                obj(x2)
+                again = obj(x1)
+                fresh = mk(f)(x1)
+            return first, again, fresh
+    ex = sn.Explorer(harness, assumptions=box, max_paths=400, timeout_ms=20000)
+    paths = list(ex.paths())
+    job.absorb_explorer(ex)
+    for p in paths:
+        if p.exc is not None:
+            if isinstance(p.exc, sn.Unsupported):
+                raise p.exc
+            job.violation('raises', dict(key='C09:reuse:%s:raises:%s' % (cls, type(p.exc).__name__), kind='reuse_cls', exc=repr(p.exc)[:300]))
+            continue
+        first, again, fresh = p.result
+        for label, (va, ia), (vb, ib) in (('again == first', again, first), ('again == fresh', again, fresh)):
+            for x, y, what in ((va, vb, 'value'), (ia.error_estimate, ib.error_estimate, 'error_estimate'), (ia.final_step, ib.final_step, 'final_step')):
+                for u, w in zip(cm.flat_list(x), cm.flat_list(y)):
+                    u, w = sn.as_symc(u), sn.as_symc(w)
+                    job.prove('%s %s: %s' % (cls, label, what), z3.And(sn.lift(u.re) == sn.lift(w.re), sn.lift(u.im) == sn.lift(w.im)), p.conds(),
+                              dict(key='C09:reuse:%s:result-depends-on-history' % cls, kind='reuse_cls', cls=cls, method=method, what=what))
+
+
+def cgen(job):
+    lim = cm.nd_mods()['lim']
+    sg = cm.nd_mods()['sg']
+    xp, x = sn.real_var('xP'), sn.real_var('x')
+    for path in ('radial', 'spiral'):
+        for kw in (dict(), dict(base_step=0.5), dict(num_steps=7, offset=1)):
+            def harness():
+                with tr.traced():
+                    g = lim.CStepGenerator(path=path, **kw)
+                    list(g(xp))
+                    a = list(g(x))
+                    b = list(lim.CStepGenerator(path=path, **kw)(x))
+                    return a, b
+            ex = sn.Explorer(harness, max_paths=64, timeout_ms=20000)
+            for p in ex.paths():
+                if p.exc is not None:
+                    if isinstance(p.exc, sn.Unsupported):
+                        raise p.exc
+                    job.violation('raises', dict(key='C09:cgen:raises', kind='cgen', exc=repr(p.exc)[:200]))
+                    continue
+                a, b = p.result
+                used = sn.value_vars(a)
+                ok = len(a) == len(b) and 'xP' not in used
+                for u, w in zip(a, b):
+                    u, w = sn.as_symc(cm.flat_list(u)[0]), sn.as_symc(cm.flat_list(w)[0])
+                    ok = ok and z3.is_true(z3.simplify(z3.And(sn.lift(u.re) == sn.lift(w.re), sn.lift(u.im) == sn.lift(w.im))))
+                if not job.confirm('CStepGenerator reused == fresh (%s)' % path, bool(ok)):
+                    job.violation('cgen', dict(key='C09:cgen:remembered-state-leaks', kind='cgen', path=path))
+            job.absorb_explorer(ex)
+
+
 # --------------------------------------------------------------------------
 def replay(cex):
     mods = cm.nd_mods()
@@ -421,6 +543,40 @@ def replay(cex):
                     return True, ('Derivative(method=%s): %s: value/error %r / %r versus %r / %r (polynomial coefficients %s)'
                                   % (method, label, a[0], a[1].error_estimate, b[0], b[1].error_estimate, list(cs)))
         return False, 'reused object == fresh object on random polynomials'
+    if kind == 'cgen':
+        lim = mods['lim']
+        for path in ('radial', 'spiral'):
+            g = lim.CStepGenerator(path=path)
+            list(g(100.0))
+            a, b = list(g(0.5)), list(lim.CStepGenerator(path=path)(0.5))
+            if len(a) != len(b) or any(u != w for u, w in zip(a, b)):
+                return True, 'CStepGenerator(path=%s) reused after x=100 yields %r..., fresh %r...' % (path, a[:2], b[:2])
+        return False, 'reused == fresh'
+    if kind == 'reuse_cls':
+        cls, method = cex['cls'], cex['method']
+        lim = mods['lim']
+        rng = np.random.default_rng(9)
+        for trial in range(5):
+            if cls == 'Limit':
+                ps = rng.uniform(-1, 1, size=3)
+                mkf = lambda z0: (lambda z: np.where(np.asarray(z) - z0 == 0, np.nan, ps[0] + ps[1] * (np.asarray(z) - z0) + ps[2] * (np.asarray(z) - z0) ** 2))  # noqa
+                mk = lambda f: lim.Limit(f, step=0.25, method=method, order=2, num_steps=5, step_ratio=4.0, full_output=True)  # noqa
+                with cm.quiet():
+                    obj = mk(mkf(0.5)); first = obj(0.5); obj.fun = mkf(2.0); obj(2.0); obj.fun = mkf(0.5); again = obj(0.5); fresh = mk(mkf(0.5))(0.5)
+            else:
+                Q = rng.uniform(-1, 1, size=(2, 2)); Q = Q + Q.T; cv = rng.uniform(-1, 1, size=2)
+                if cls == 'Jacobian':
+                    f = lambda x: np.array([0.25 + cv @ x + 0.5 * x @ Q @ x, 2 * (0.25 + cv @ x + 0.5 * x @ Q @ x) + x[0]])  # noqa
+                else:
+                    f = lambda x: 0.25 + cv @ x + 0.5 * x @ Q @ x  # noqa
+                mk = lambda fun: getattr(nd, cls)(fun, step=nd.MinStepGenerator(base_step=0.25, step_ratio=2.0, num_steps=3, step_nom=1.0), method=method, full_output=True)  # noqa
+                x1, x2 = np.array([0.5, -0.75]), np.array([1.25, 2.0])
+                with cm.quiet():
+                    obj = mk(f); first = obj(x1); obj(x2); again = obj(x1); fresh = mk(f)(x1)
+            for label, a, b in (('repeated call', again, first), ('reused vs fresh', again, fresh)):
+                if not (np.array_equal(a[0], b[0], equal_nan=True) and np.array_equal(a[1].error_estimate, b[1].error_estimate, equal_nan=True)):
+                    return True, '%s(method=%s): %s differs: %r vs %r' % (cls, method, label, a[0], b[0])
+        return False, 'reused object == fresh object'
     if kind in ('setters',):
         method = cex['config']['m1']
         f = lambda x: x ** 3 + 0.5 * x ** 2  # noqa
